@@ -681,6 +681,13 @@ main(int argc, char **argv) {
             }
           }
         }
+  /* (1b) large settings: ACK_TIMEOUT 45 s x 1.5 (a drawn time-out above 65.535 s for the top random bytes) */
+  for (int r = 0; r < 3; r++)
+    for (int k = 0; k <= 2; k++) {
+      struct cfg c = {.ato_ms = 45000, .arf_milli = 1500, .max_retx = 1, .nreq = 1, .nsess = 1, .nstart = 1, .answer_from = k == 2 ? 99 : k,
+                      .verdict = 'A', .rsel = r, .bound = 0, .late_timer = 1};
+      add(c);
+    }
   /* (2) the statement's own bound: every drop subset of the first 10 datagrams of one exchange */
   for (int v = 0; v < 2; v++)
     for (int r = 0; r < (T ? 3 : 1); r++) {
@@ -716,7 +723,7 @@ main(int argc, char **argv) {
           add(c);
         }
   vx_ev_rule("executions of a real libcoap client context against raw peers under a virtual clock; enumerated: "
-             "configuration product (ACK_TIMEOUT x ACK_RANDOM_FACTOR x MAX_RETRANSMIT x r byte x peer-silence length x verdict), "
+             "configuration product (ACK_TIMEOUT x ACK_RANDOM_FACTOR x MAX_RETRANSMIT x r byte x peer-silence length x verdict; plus ACK_TIMEOUT 45 s x 1.5), "
              "all 2^10 drop subsets of the first 10 datagrams, and all schedules with <= bound deviations "
              "(drop/dup/reorder/timer-first/timer +-1ms/other peer verdict) for multi-message scripts (two sessions also with equal message ids), also with 1-2 Confirmable observe notifications (created inside coap_io_prepare_io by the same context acting "
              "as server for a raw observer) sharing the send queue; an execution is "
